@@ -279,6 +279,7 @@ class StoreSession:
     def open(self):
         self.scratch = tempfile.mkdtemp(prefix="lmm-simb-", dir=SCRATCH_ROOT)
         if self.use_sqlite:
+            plant_stale(self.scratch, self.doc, self.bump)
             self.sq = SqliteMap("store", use_latlon=self.latlon, dir=self.scratch)
         if self.use_inmem:
             self.im = InMemMap("store", use_latlon=self.latlon, use_rtree=False, index_edges=False, dir=self.scratch)
@@ -586,6 +587,55 @@ def check_closeto(sess, i, op, m, backend, store):
     return vs
 
 
+def maybe_stale(rng, d, p, kind="sqlite"):
+    """Fault 'stale_file': a file of the same name is already there, left by an earlier run over the same labels
+    (other coordinates, every road linked to its parallel roads).  Creating the map again under that name starts
+    from an empty store; opening a pickle later reads the file that is there then."""
+    if rng.random() < p:
+        d["stale"] = {"kind": kind, "shift": rng.choice([0.0, 0.001, 1.0])}
+    return d
+
+
+def plant_stale(scratch, doc, bump=None):
+    st = doc.get("stale")
+    if not st:
+        return
+    latlon = bool(doc["latlon"])
+    sh = st["shift"] * (0.001 if latlon else 1.0)
+    nodes, edges = {}, []
+    for o in doc["ops"]:
+        if o["op"] == "add_node":
+            nodes.setdefault(o["label"], tuple(o["loc"]))
+        elif o["op"] == "add_nodes":
+            for l, q in o["nodes"]:
+                nodes.setdefault(l, tuple(q))
+    for o in doc["ops"]:
+        rows = [[o["a"], o["b"]]] if o["op"] == "add_edge" else (o["edges"] if o["op"] == "add_edges" else [])
+        for r in rows:
+            if r[0] in nodes and r[1] in nodes and (r[0], r[1]) not in edges:
+                edges.append((r[0], r[1]))
+    if st["kind"] == "sqlite":
+        m = SqliteMap("store", use_latlon=latlon, dir=scratch)
+        for l, q in nodes.items():
+            m.add_node(l, (q[0] + sh, q[1] + sh))
+        for a, b in edges:
+            m.add_edge(a, b)
+        m.connect_parallelroads(dist=1e9)
+        m.db.close()
+    else:
+        m = InMemMap("store", use_latlon=latlon, use_rtree=False, index_edges=False, dir=scratch)
+        keep = sorted(nodes)[: max(1, len(nodes) // 2)]
+        for l in keep:
+            m.add_node(l, (nodes[l][0] + sh, nodes[l][1] + sh))
+        for a, b in edges:
+            if a in keep and b in keep:
+                m.add_edge(a, b)
+        m.dump()
+        InMemMap.from_pickle(os.path.join(scratch, "store.pkl"))     # the earlier run also read it once
+    if bump:
+        bump("fired_stale_file")
+
+
 def gen_C11(rng, tier):
     latlon, mag = gen_world_b(rng, "C11")
     ops, labels, pts = gen_build_history(rng, latlon, mag, sqlite_features=True, queries=("nodes", "edges", "edges"),
@@ -593,7 +643,7 @@ def gen_C11(rng, tier):
     if rng.random() < 0.3:
         pos = rng.randint(len(ops) // 2, len(ops))
         ops.insert(pos, {"op": "reopen"})
-    return with_clock(rng, {"kind": "B", "latlon": latlon, "mag": mag, "ops": ops})
+    return with_clock(rng, maybe_stale(rng, {"kind": "B", "latlon": latlon, "mag": mag, "ops": ops}, 0.12))
 
 
 def _reopen(sess, crash=False):
@@ -777,7 +827,7 @@ def gen_C12(rng, tier):
             cfg["max_dist_init"] = 1e12      # unbounded initial radius (None would fall back to max_dist)
     d["cfg"] = cfg
     d["trace_seed"] = rng.randrange(1 << 30)
-    return with_clock(rng, d)
+    return with_clock(rng, maybe_stale(rng, d, 0.15))
 
 
 def compare_backends(sess, i):
@@ -936,7 +986,12 @@ def gen_C18(rng, tier):
             ops.insert(pos + 2, {"op": "connect_parallelroads", "dist": 1e9})
     if kind == "pickle" and rng.random() < 0.4 and len(labels) >= 4:
         d["linked"] = [[[labels[0], labels[1]], [[labels[2], labels[3]]]]]
-    return with_clock(rng, d)
+    if kind == "pickle":
+        # the writer keeps building on its own object after some dumps (the reopened copy is only read)
+        for o in ops:
+            if o["op"] == "reopen" and rng.random() < 0.45:
+                o["keep"] = True
+    return with_clock(rng, maybe_stale(rng, d, 0.3 if kind == "pickle" else 0.15, kind))
 
 
 def reopen_in_other_process(sess, doc, labels, edges, hashseed):
@@ -991,6 +1046,7 @@ def eval_C18(doc):
                 linked = None
                 if doc.get("linked"):
                     linked = {tuple(e): [tuple(f) for f in fs] for e, fs in doc["linked"]}
+                plant_stale(scratch, doc, bump)
                 m = InMemMap("store", use_latlon=latlon, use_rtree=False, index_edges=False, dir=scratch,
                              linked_edges=linked, **kw)
                 nodes, edges = {}, []
@@ -1018,7 +1074,10 @@ def eval_C18(doc):
                             vs.append(V("C18/pickle/%s" % dk, "before=%r after=%r" % (str(before[dk])[:150], str(after[dk])[:150]), i))
                         if (m2.linked_edges or None) != (m.linked_edges or None):
                             vs.append(V("C18/pickle/linked_edges", "%r vs %r" % (m.linked_edges, m2.linked_edges), i))
-                        m = m2
+                        if op.get("keep"):
+                            bump("fired_reopen_writer_continues")
+                        else:
+                            m = m2
                         bump("fired_restart")
         finally:
             shutil.rmtree(scratch, ignore_errors=True)
@@ -1033,6 +1092,7 @@ def eval_C18(doc):
             kw = {}
             if "crs" in doc:
                 kw = {"crs_lonlat": doc["crs"][0], "crs_xy": doc["crs"][1]}
+            plant_stale(sess.scratch, doc, sess.bump)
             sess.sq = SqliteMap("store", use_latlon=latlon, dir=sess.scratch, **kw)
             exp_crs = tuple(doc["crs"]) if "crs" in doc else ("EPSG:4326", "EPSG:3395")
             for i, op in enumerate(doc["ops"]):
